@@ -170,24 +170,31 @@ func c05Specs() []*bfsSpec {
 				Depth: 4, DepthT: 5})
 		}
 	}
-	// metadata size guesses that grow and shrink while blocks arrive
+	// metadata size guesses that grow and shrink while blocks arrive: a peer
+	// votes once (a second extended handshake disconnects it), so the guess
+	// moves as further peers vote
 	{
-		voter := peerCfg{Fast: true, Ext: true, Metadata: 8, MetadataSize: 40000}
-		hostile := peerCfg{Fast: true, Ext: true, Metadata: 8}
-		var al []string
-		for _, ms := range []uint32{0, 20000, 40000, 100000} {
-			al = append(al, fmt.Sprintf("raw:0:%s", hexFrame(rc.Msg{Kind: rc.Ext0, M: map[string]uint8{"ut_metadata": 2}, HasM: true, MetadataSize: ms})))
+		silent := peerCfg{Fast: true, Ext: true, NoExt0: true}
+		ext0 := func(r int, ms uint32) string {
+			return fmt.Sprintf("raw:%d:%s", r, hexFrame(rc.Msg{Kind: rc.Ext0, M: map[string]uint8{"ut_metadata": 2}, HasM: true, MetadataSize: ms}))
 		}
-		for _, pc := range []uint32{0, 1, 2, 3, 6, 7} {
-			for _, ts := range []uint32{20000, 40000, 100000} {
-				for _, l := range []int{16384, 3616, 7232, 1696} {
+		var al []string
+		for r := 1; r <= 3; r++ {
+			for _, ms := range []uint32{20000, 100000} {
+				al = append(al, ext0(r, ms))
+			}
+		}
+		for _, pc := range []uint32{0, 1, 2, 3, 6} {
+			for _, ts := range []uint32{20000, 100000} {
+				for _, l := range []int{16384, 3616} {
 					al = append(al, fmt.Sprintf("raw:0:%s", hexFrame(rc.Msg{Kind: rc.ExtMetadata, ID: 2, MsgType: 1, MPiece: pc, TotalSize: ts, HasTotal: true, Data: bytes.Repeat([]byte{0x4D}, l)})))
 				}
 			}
 		}
-		al = append(al, "mtick", "adv:2", "close:1")
-		cfg := worldCfg{Geom: "gtail", Peers: []peerCfg{hostile, voter}, Magnet: true, AutoDrain: true, InfoSize: 40000}
-		specs = append(specs, &bfsSpec{Name: "c05-magnet-resize", Cfg: cfg, Alphabet: al, Depth: 3, DepthT: 4})
+		al = append(al, "mtick")
+		cfg := worldCfg{Geom: "gtail", Peers: []peerCfg{silent, silent, silent, silent}, Magnet: true, AutoDrain: true, InfoSize: 40000}
+		specs = append(specs, &bfsSpec{Name: "c05-magnet-resize", Cfg: cfg, Setup: []string{ext0(0, 100000)}, Alphabet: al, Depth: 3, DepthT: 4})
+		specs = append(specs, &bfsSpec{Name: "c05-magnet-resize-small-first", Cfg: cfg, Setup: []string{ext0(0, 20000)}, Alphabet: al, Depth: 3, DepthT: 4})
 	}
 	return specs
 }
